@@ -199,6 +199,16 @@ structure Ghost where
   /-- the charge the latest insert asked for, per key; at quiescence (nothing in flight) the combined
   cost of the entries not yet reclaimed is the sum of these over the charged keys -/
   keyLatest : List (Nat × Int) := []
+  /-- absolute deadline (0 = none) of the insert that wrote each value; a write through get_mut
+  inherits the deadline of the entry it overwrites (C03 speaks of "since that insert") -/
+  valDeadline : List (Nat × Nat) := []
+  /-- keys whose resident value was replaced in place (unvetoed insert of a resident key, or a write
+  through get_mut), with that value: until the key leaves the store or is written again, the cache
+  must never show an older value for it (C02: "never rolled back") -/
+  inPlace : List (Nat × Nat) := []
+  /-- the charge each charged key is due according to the items the processor applied for it (given
+  cost or Coster value + overhead, C16's formula); kept only for keys the implementation still charges -/
+  due : List (Nat × Int) := []
   /-- lookups applied to the estimator (batches the policy worker took) since the cache was built or
   the last served clear(): while this is 0 the estimator is that of a fresh cache -/
   appliedSinceClear : Nat := 0
@@ -244,6 +254,26 @@ def itemExpired (now : Nat) (it : Nat × Nat × Nat × Nat × Nat) : Bool :=
   d != 0 && now ≥ cr + d
 
 def findItem (s : CSnap) (k : Nat) : Option (Nat × Nat × Nat × Nat × Nat) := s.items.find? (·.1 == k)
+
+/-- `v` was written before `w` (`written` is newest first) -/
+def writtenBefore (written : List Nat) (v w : Nat) : Bool :=
+  ((written.dropWhile (· != w)).drop 1).contains v
+
+/-- C02 "never rolled back": a key whose value was replaced in place still shows that value, a newer
+one, or has left the store -/
+def monitorRollback (tl : Tally) (g : Ghost) (s : CSnap) : Tally × Ghost :=
+  g.inPlace.foldl (fun (acc : Tally × Ghost) (kw : Nat × Nat) =>
+    let (tl, g) := acc
+    let (k, w) := kw
+    match s.items.find? (·.1 == k) with
+    | none => (tl, { g with inPlace := g.inPlace.filter (·.1 != k) })
+    | some (_, _, v, _, _) =>
+      if v == w then (tl, g)
+      else
+        let tl := if writtenBefore g.written v w then
+            tl.monitorAt "C02" s!"the value of resident key {k} was replaced in place by {w}, and nothing removed, evicted, expired or cleared the key since, yet the cache now holds the older value {v}: the update was rolled back"
+          else tl
+        (tl, { g with inPlace := g.inPlace.filter (·.1 != k) })) (tl, g)
 
 /-- monitors evaluated on every snapshot -/
 def monitorSnapshot (tl : Tally) (g : Ghost) (s : CSnap) (quiescentExtra : Bool) : Tally := Id.run do
@@ -329,11 +359,13 @@ def finishStep (st : CacheSt) (tl : Tally) (c' : Cache) (what : String) (cbsMode
   let tl := compareCSnap tl (modelSnap c') snap what
   let g := noteCallbacks g cbsImpl
   let tl := monitorSnapshot tl g snap quiescentExtra
+  let (tl, g) := monitorRollback tl g snap
   -- nothing in flight: the combined cost of what is not yet reclaimed is what was last asked for
   -- each charged key (C04's premise follows the history, not the peak)
   let g := if snap.buf == 0 && g.blocked.isEmpty && quiescentExtra then
       { g with keyCharges := g.keyLatest.filter fun (k, _) => snap.charges.any (·.1 == k) }
     else g
+  let g := { g with due := g.due.filter fun (k, _) => snap.charges.any (·.1 == k) }
   ({ st with c := some (resync { c' with cbs := [] } snap), g := { g with prev := some snap } },
    { tl with ok := tl.ok + 1 })
 
@@ -539,6 +571,15 @@ partial def stepCache (st : CacheSt) (tl : Tally) (act : String) (ans : String) 
           else if retI then { g with lastWrite := g.lastWrite.filter (·.1.1 != k) } else g
         let g := if retI && !vetoed then
             { g with lastDeadline := (k, if ttl == 0 then 0 else now + ttl) :: g.lastDeadline.filter (·.1 != k) } else g
+        let g := if retI && !vetoed then
+            { g with valDeadline := (v, if ttl == 0 then 0 else now + ttl) :: g.valDeadline } else g
+        let g := match before with
+          | some (_, bcf, _, _, _) =>
+            if !c.closed && (cf == 0 || cf == bcf) && !vetoed && !(only && absentOrExpired) &&
+                ((findItem snap k).map fun it => it.2.2.1) == some v then
+              { g with inPlace := (k, v) :: g.inPlace.filter (·.1 != k) }
+            else g
+          | none => g
         let wanted := c.internalCost (if cost == 0 then coster else cost)
         let prevMax := ((g.keyCharges.find? (·.1 == k)).map (·.2)).getD 0
         let g := if !only || before.isSome then
@@ -601,8 +642,24 @@ partial def stepCache (st : CacheSt) (tl : Tally) (act : String) (ans : String) 
             let tl := match g.prev.bind (fun s => findItem s k) with
               | some it => if itemExpired now it then tl.monitorAt "C03" s!"get({k},{cf}) served an entry whose TTL has elapsed (now={now})" else tl
               | none => tl
+            let tl := match g.valDeadline.find? (·.1 == v) with
+              | some (_, dl) => if dl != 0 && now ≥ dl then
+                  tl.monitorAt "C03" s!"get({k},{cf}) returned value {v} at {now}, but the TTL given to the insert that wrote it ran out at {dl}"
+                else tl
+              | none => tl
             if g.closeReturned then tl.monitorAt "C12" s!"get({k},{cf}) returned a value after close() had returned" else tl
-          | none => tl
+          | none =>
+            -- invisible because of time, although the TTL given with the value has not run out / there is none
+            match g.prev, g.prev.bind (fun s => findItem s k) with
+            | some p, some (_, icf, pv, _, _) =>
+              if !p.closed && (cf == 0 || cf == icf) then
+                match g.valDeadline.find? (·.1 == pv) with
+                | some (_, dl) => if dl == 0 || now < dl then
+                    tl.monitorAt "C03" s!"get({k},{cf}) at {now} returned nothing although the resident value {pv} was inserted {if dl == 0 then "without a TTL" else s!"with a TTL that runs until {dl}"}: it became invisible because of time"
+                  else tl
+                | none => tl
+              else tl
+            | _, _ => tl
         -- quiescent last-write: buffer empty, nothing blocked ⇒ none or exactly the last write
         let tl := match g.prev with
           | some p =>
@@ -655,6 +712,20 @@ partial def stepCache (st : CacheSt) (tl : Tally) (act : String) (ans : String) 
           | none => tl
         let g := if !((g.prev.map (·.closed)).getD false) then { g with lookups := g.lookups + 1, ringLookups := g.ringLookups + 1 } else g
         let g := if c'.ring.isEmpty && !c.closed && !c.policyClosed then { g with flushed := g.flushed + c.ring.length + 1 } else g
+        let tl := match retI with
+          | some old => match g.valDeadline.find? (·.1 == old) with
+            | some (_, dl) => if dl != 0 && now ≥ dl then
+                tl.monitorAt "C03" s!"get_mut({k},{cf}) returned value {old} at {now}, but the TTL given to the insert that wrote it ran out at {dl}"
+              else tl
+            | none => tl
+          | none => tl
+        let g := match retI with
+          | some old =>
+            let g := match g.valDeadline.find? (·.1 == old) with
+              | some (_, dl) => { g with valDeadline := (v, dl) :: g.valDeadline }
+              | none => g
+            { g with inPlace := (k, v) :: g.inPlace.filter (·.1 != k) }
+          | none => g
         let g := match retI with
           | some old => { g with origin := (v, k, cf) :: g.origin, written := v :: g.written, dropped := old :: g.dropped,
                                  accepted := v :: g.accepted,
@@ -683,6 +754,17 @@ partial def stepCache (st : CacheSt) (tl : Tally) (act : String) (ans : String) 
               else (if retS == toString (d - (now - cr)) then tl else tl.monitorAt "C03" s!"get_ttl({k}) = {retS}, remaining time is {d - (now - cr)}")
             else tl
           | none => if retS == "none" then tl else tl.monitorAt "C03" s!"get_ttl({k}) = {retS} for an absent key"
+        let tl := match g.prev.bind (fun s => findItem s k) with
+          | some (_, icf, pv, _, _) =>
+            if cf == 0 || cf == icf then
+              match g.valDeadline.find? (·.1 == pv) with
+              | some (_, dl) =>
+                let want := if dl == 0 then "max" else if now ≥ dl then "none" else toString (dl - now)
+                if retS == want then tl else
+                  tl.monitorAt "C03" s!"get_ttl({k}) = {retS} at {now}; the resident value {pv} was inserted {if dl == 0 then "without a TTL" else s!"with a TTL running until {dl}"}, so it should report {want}"
+              | none => tl
+            else tl
+          | none => tl
         let tl := match g.prev.bind (fun p => findItem p k) with
           | some (_, pcf, _, _, _) => if cf != 0 && pcf != 0 && cf != pcf && retS != "none" then
               tl.monitorAt "C18" s!"get_ttl for key ({k},{cf}) reported the TTL of the colliding key ({k},{pcf})" else tl
@@ -898,6 +980,30 @@ partial def stepCache (st : CacheSt) (tl : Tally) (act : String) (ans : String) 
                 let R := policyAdd c.lfu est k (c.internalCost (match it with | .new _ _ cost _ _ => cost | _ => 0)) refills
                 if R.events.contains MEv.rejectSets then { g with rejectsExpected := g.rejectsExpected + 1 } else g
               | _ => g
+            -- what each charged key is due, from the items applied (C16's formula), and C01 at the level
+            -- of the cache: after the admission of a new key the costs asked for the charged entries fit
+            let rejectedCb := cbsImpl.any (fun cb => match cb with | .reject .. => true | _ => false)
+            let g := match implItem.getD it with
+              | .new k _ cost _ _ =>
+                let expect := c.internalCost cost
+                let wasCharged := (g.prev.map fun p => (p.charges.find? (·.1 == k)).isSome).getD false
+                if (snap.charges.any (·.1 == k)) && !rejectedCb && (!wasCharged || expect ≤ snap.max) then
+                  { g with due := (k, expect) :: g.due.filter (·.1 != k) }
+                else g
+              | .update k cost ext =>
+                if snap.charges.any (·.1 == k) then
+                  { g with due := (k, c.internalCost cost + ext) :: g.due.filter (·.1 != k) }
+                else g
+              | _ => g
+            let tl := match implItem.getD it with
+              | .new k _ _ _ _ =>
+                let wasCharged := (g.prev.map fun p => (p.charges.find? (·.1 == k)).isSome).getD false
+                let dueNow := g.due.filter fun (j, _) => snap.charges.any (·.1 == j)
+                if (snap.charges.any (·.1 == k)) && !rejectedCb && !wasCharged &&
+                    snap.charges.all (fun (j, _) => dueNow.any (·.1 == j)) && sumCosts dueNow > snap.max then
+                  tl.monitorAt "C01" s!"after the admission of new key {k} the costs asked for the charged entries (given cost or Coster value + overhead, per the latest insert/update applied for each: {dueNow}) add up to {sumCosts dueNow} > max_cost = {snap.max} (the policy's own total reads {snap.used})"
+                else tl
+              | _ => tl
             let g := if descS == "wait" then
                 match g.waitFifo with
                 | w :: rest => { g with waitFifo := rest, releasedG := w :: g.releasedG }
